@@ -79,6 +79,58 @@ def replay(model, obligation):
                     break
             if fails:
                 break
+    if h == 'header-too-long':
+        from cassandra import DriverException
+        for comp in (False, True):
+            cdc = _codec(comp)
+            for plen in sorted({max(p, 131072), 131072, 131073, 1 << 20}):
+                buf = io.BytesIO()
+                try:
+                    cdc.encode_header(buf, plen, 0, True)
+                    fails.append('encode_header accepted a payload of %d bytes (the maximum is 131071) and wrote %s' % (plen, buf.getvalue().hex()))
+                except DriverException:
+                    if buf.getvalue():
+                        fails.append('encode_header refused %d bytes but had already written %s' % (plen, buf.getvalue().hex()))
+    if h == 'payload-crc-checked':
+        import zlib
+        from cassandra.segment import CRC32_INITIAL
+        for size in (0, 1, 5, 300):
+            payload = bytes((i * 11 + 3) % 256 for i in range(size))
+            buf = io.BytesIO()
+            SegmentCodec()._encode_segment(buf, payload, True) if size else None
+            if not size:
+                continue
+            wire = bytearray(buf.getvalue())
+            for pos in (len(wire) - 1, len(wire) - 4, 6):      # a CRC byte, another CRC byte, the first payload byte
+                w = bytearray(wire)
+                w[pos] ^= 0x01
+                rd = io.BytesIO(bytes(w))
+                try:
+                    hdr = SegmentCodec().decode_header(rd)
+                    SegmentCodec().decode(rd, hdr)
+                    fails.append('segment of %d payload bytes with byte %d changed (payload or its CRC32) was accepted' % (size, pos))
+                except CrcException:
+                    pass
+            rd = io.BytesIO(bytes(wire))
+            try:
+                SegmentCodec().decode(rd, SegmentCodec().decode_header(rd))
+            except CrcException:
+                fails.append('an intact segment of %d payload bytes was rejected' % size)
+    if h == 'encode-chunking':
+        from cassandra.segment import Segment
+        M = Segment.MAX_PAYLOAD_LENGTH
+        if M != 131071:
+            fails.append('Segment.MAX_PAYLOAD_LENGTH is %d, the v5 limit is 131071' % M)
+        for size in (1, M - 1, M, M + 1, 2 * M, 2 * M + 1, 3 * M + 5):
+            msg = bytes((i * 13 + 1) % 251 for i in range(size))
+            got = []
+
+            class Rec(SegmentCodec):
+                def _encode_segment(self, buf, payload, sc):
+                    got.append((bytes(payload), sc))
+            Rec().encode(io.BytesIO(), msg)
+            if b''.join(x for x, _ in got) != msg or any(not (1 <= len(x) <= M) for x, _ in got) or any(sc != (len(got) == 1) for _, sc in got) or size <= (len(got) - 1) * M:
+                fails.append('message of %d bytes: chunks of %r bytes, self-contained flags %r' % (size, [len(x) for x, _ in got], [sc for _, sc in got]))
     if h in ('connection-segment-buffer', 'reset-buffers'):
         fails += _conn_chunking(compression)
         fails += _multi_frame_segment()
